@@ -138,6 +138,15 @@ pub fn check_forward(ai: usize, shape: &Shape, value: &Value, tail: &[u8], l: &m
         Ok(Ok(v)) if v == *value => {}
         other => return Err(fail("crc-forward", format!("from_bytes_crc [{}]: {:?}", api.params.name, other), cjv())),
     }
+    // a correct checksum at the *end* of a longer buffer proves nothing about the bytes the value
+    // consumed: plain ++ slack ++ crc(plain ++ slack) must satisfy the converse like any other input
+    if !tail.is_empty() {
+        let mut longer = e.bytes.clone();
+        longer.extend_from_slice(tail);
+        let framed = frame_of(api, &longer);
+        let accepted = check_converse(ai, shape, &framed, l)?;
+        l.class(if accepted { "checksum-at-buffer-end-accepted(self-consistent)" } else { "checksum-at-buffer-end-rejected" });
+    }
     if e.bytes.len() >= 2 {
         l.nontrivial(&(api.params.name, &want));
         l.class("forward");
@@ -334,6 +343,44 @@ pub fn run(ctx: &Ctx) {
         || (0..na, gen::arb_typed(scfg.clone(), ValCfg { max_len: 300, max_seq: 4 }), proptest::collection::vec(any::<u8>(), 0..4)),
         |(ai, (s, v), tail), l| check_forward(*ai, s, v, tail, l),
     );
+    // every element count 0..=520 of sequences whose elements are read in small multi-byte takes
+    // (floats, chars, short strings) or single bytes, followed by one more field: any internal
+    // buffering of the digest has to get every length right
+    {
+        let total = 521u64 * 6 * na as u64;
+        ctx.par_range("forward-length-sweep", total, move |i, l| {
+            let ai = (i % na as u64) as usize;
+            let kind = (i / na as u64) % 6;
+            let n = (i / (na as u64 * 6)) as usize;
+            let (s, v): (Shape, Value) = match kind {
+                0 => (
+                    Shape::Tuple(vec![Shape::Seq(Box::new(Shape::F32)), Shape::U16]),
+                    Value::List(vec![Value::List((0..n).map(|k| Value::F32(0x3F80_0000 + k as u32)).collect()), Value::U(300)]),
+                ),
+                1 => (
+                    Shape::Tuple(vec![Shape::Seq(Box::new(Shape::F64)), Shape::U8]),
+                    Value::List(vec![Value::List((0..n).map(|k| Value::F64(0x3FF0_0000_0000_0000 + k as u64)).collect()), Value::U(7)]),
+                ),
+                2 => (
+                    Shape::Tuple(vec![Shape::Seq(Box::new(Shape::Char)), Shape::Bool]),
+                    Value::List(vec![Value::List((0..n).map(|k| Value::Char(['a', 'é', '名', '\u{1F600}'][k % 4])).collect()), Value::Bool(true)]),
+                ),
+                3 => (
+                    Shape::Tuple(vec![Shape::Seq(Box::new(Shape::String)), Shape::U32]),
+                    Value::List(vec![Value::List((0..n).map(|k| Value::Str("abcdefgh"[..k % 9].to_string())).collect()), Value::U(70000)]),
+                ),
+                4 => (
+                    Shape::Tuple(vec![Shape::Seq(Box::new(Shape::U8)), Shape::F32]),
+                    Value::List(vec![Value::List((0..n).map(|k| Value::U((k % 256) as u128)).collect()), Value::F32(0x4049_0FDB)]),
+                ),
+                _ => (
+                    Shape::Tuple(vec![Shape::ByteBuf, Shape::F64, Shape::U8]),
+                    Value::List(vec![Value::Bytes(vec![0x42; n]), Value::F64(0x4009_21FB_5444_2D18), Value::U(1)]),
+                ),
+            };
+            check_forward(ai, &s, &v, &[], l)
+        });
+    }
     // corruption families on raw payloads (length is immune to corruption) and on typed values
     let n = ctx.tier.pick(1_000, 12_000);
     ctx.par_proptest(
